@@ -254,6 +254,15 @@ Theorem setup_ss_copies_lambda : forall fun1 fun2 (e : env),
 Proof. exact Tie.setup_ss_copies_lambda. Qed.
 Print Assumptions setup_ss_copies_lambda.
 
+(* precipitate_only amounts are inert in EVERY solver that model() dispatches to (ion association loop, model_pz,
+   model_sit) and are given back on every return: path analysis of the regenerated statements of model() *)
+Theorem inert_amounts_cover_every_solver :
+    call_order model_head false = OFalls true /\
+    call_order model_ret true = OReturned /\
+    stmt_uses ["model_pz()"] model_head = true /\ stmt_uses ["model_sit()"] model_head = true.
+Proof. exact Tie.inert_amounts_cover_every_solver. Qed.
+Print Assumptions inert_amounts_cover_every_solver.
+
 (* the executable checker applied to what the implementation reports is sound for the property *)
 Theorem check_hetero_sound : forall c : hcase, case_ok c = true -> hetero_valid c.
 Proof. exact SpecProofs.case_ok_sound. Qed.
